@@ -41,6 +41,8 @@ func analyzeCmd(args []string) {
 	initEmbedded := fs.Bool("init-embedded", false, "call checkers.InitEmbeddedRules first (what the CLI mains do; the analysis mains do not)")
 	tests := fs.Bool("tests", true, "load test variants")
 	repeat := fs.Int("repeat", 1, "run the analysis this many times in the same process (re-entering the analyzer)")
+	seq := fs.String("seq", "", "flag sets separated by | : run k of the analysis uses set k (an embedding program that re-configures the analyzer between runs)")
+	disableCache := fs.Bool("disable-cache", false, "set analyzer.DisableCache (every pass builds its configuration from the current flag values)")
 	work := fs.String("work", "", "record the work loop of every pass (NDJSON, AnalyzerWork.tla) and write <file>.refs with fresh per-variant verdicts")
 	fs.Parse(args)
 
@@ -95,9 +97,27 @@ func analyzeCmd(args []string) {
 	res["load_errors"] = loadErrs
 	res["packages"] = len(pkgs)
 
+	analyzer.DisableCache = *disableCache
+	var seqSets []string
+	if *seq != "" {
+		seqSets = strings.Split(*seq, "|")
+		*repeat = len(seqSets)
+	}
 	var runs []map[string]interface{}
 	for k := 0; k < *repeat; k++ {
 		run := map[string]interface{}{}
+		if seqSets != nil {
+			for _, kv := range strings.Split(seqSets[k], ";") {
+				i := strings.IndexByte(kv, '=')
+				if err := analyzer.Analyzer.Flags.Set(kv[:i], kv[i+1:]); err != nil {
+					flagErrs = append(flagErrs, err.Error())
+				}
+			}
+			if !*disableCache {
+				analyzer.VerifResetGlobals()
+			}
+			run["flags"] = seqSets[k]
+		}
 		func() {
 			defer func() {
 				if p := recover(); p != nil {
